@@ -46,6 +46,19 @@ type Config struct {
 	// returned ascending offsets (each in 1..n-1) with CutPause between the writes (loopback TCP).
 	Cut      func(r *rand.Rand, n int) []int
 	CutPause time.Duration
+
+	// VaryPID: the connected-data frames the simulator sends carry other PIDs than 0xF0 as well (a remote station or a TNC
+	// that marks its frames as NET/ROM, IP, segmentation fragment ...): they are connected data of the connection all the same.
+	VaryPID bool
+}
+
+// dataPID is the PID of the k-th data frame the simulator sends on a connection.
+func (s *Sim) dataPID(k int) uint8 {
+	if !s.cfg.VaryPID {
+		return 0xF0
+	}
+	pids := [...]uint8{0xF0, 0x00, 0xCF, 0xF0, 0xCC, 0x08, 0x01, 0xFF, 0xF0, 0xCD, 0x10, 0xF1}
+	return pids[(k+int(uint64(s.cfg.Seed)%7))%len(pids)]
 }
 
 // Event is one entry of the exchange log.
@@ -592,7 +605,7 @@ func (s *Sim) sendDataLocked(remote string, payload []byte) {
 	if c == nil {
 		panic("simagw: SendData on unknown connection " + remote)
 	}
-	f := Frame{Kind: 'D', Port: c.Port, PID: 0xF0, From: c.Remote, To: c.Local, Data: payload}
+	f := Frame{Kind: 'D', Port: c.Port, PID: s.dataPID(c.TxFrames), From: c.Remote, To: c.Local, Data: payload}
 	c.Tx.Write(payload)
 	c.TxFrames++
 	c.TxSizes = append(c.TxSizes, len(payload))
